@@ -57,6 +57,8 @@ def large_layer(ck, n_files):
     import laspy
     for fi in range(n_files):
         minor, fmt = ck.rng.choice([(4, 6), (4, 7), (2, 1), (4, 1)])
+        if fi == 0:
+            minor, fmt = 4, 6           # on every seed: a file with EVLRs right after the point block
         size = laspy.PointFormat(fmt).size
         n = (1 << 20) // size + ck.rng.choice([1500, 7000, 40000])
         evlrs = [("verif", 3, "after the points", bytes(ck.rng.getrandbits(8) for _ in range(300)))] if minor >= 4 else None
@@ -81,6 +83,8 @@ def large_layer(ck, n_files):
                         else:
                             k1 = n // 2 if how == "two_pieces" else n - 11
                             p1 = rd.read_points(k1).array.tobytes()
+                            if len(p1) != k1 * size:
+                                ck.fail(f"large file through {kind} ({how}): read_points({k1}) returned {len(p1) // size} records", inp)
                             got = rd.read()
                             pts = p1 + got.points.array.tobytes()
                         ev = [c08.canon(v) for v in (got.evlrs or [])]
